@@ -311,6 +311,25 @@ INSERT INTO z SELECT i, i%%13, CASE i%%3 WHEN 0 THEN 'k'||(i%%5) WHEN 1 THEN 'K'
 			`CREATE TABLE r2 (_rowid_ TEXT, id INTEGER PRIMARY KEY, v)`,
 			`INSERT INTO r2 VALUES ('p', 7, 1), ('q', 9, 2)`,
 		}},
+		{"names-differing-in-non-ascii-case", []string{
+			// SQLite folds ASCII letters only: these are five different tables, and é/É two different columns
+			`CREATE TABLE é (x)`,
+			`INSERT INTO é VALUES ('lower e acute')`,
+			`CREATE TABLE É (y, z)`,
+			`INSERT INTO É VALUES ('upper', 'E acute'), ('second', 'row')`,
+			`CREATE TABLE k (v)`,
+			"CREATE TABLE \u212a (v, w)",
+			`INSERT INTO k VALUES ('latin k')`,
+			"INSERT INTO \u212a VALUES ('kelvin', 1)",
+			`CREATE TABLE cols (é, É, ſ, s, PRIMARY KEY (É, S))`,
+			`INSERT INTO cols VALUES (1, 2, 3, 4), (5, 6, 7, 8)`,
+			`CREATE INDEX cols_é ON cols (é)`,
+			`CREATE INDEX cols_É ON cols (É DESC, ſ)`,
+			`CREATE TABLE wr (é, É, v, PRIMARY KEY (É)) WITHOUT ROWID`,
+			`INSERT INTO wr VALUES (1, 2, 'a'), (2, 1, 'b')`,
+			`CREATE TABLE ty (a ıNTEGER PRIMARY KEY, b unıque)`,
+			`INSERT INTO ty VALUES (9, 'nine'), (7, 'seven'), (7.5, 'real'), ('t', 'text')`,
+		}},
 		{"alter-defaults", []string{
 			`CREATE TABLE t (id INTEGER PRIMARY KEY, v)`,
 			`INSERT INTO t VALUES (1, 'one'), (2, 'two')`,
